@@ -71,6 +71,28 @@ def check_effects(ctx, fi, self_cls, shared, in_scope_r1):
     return n
 
 
+def stateless_methods(ctx, rule, names):
+    """Every definition of the named protocol methods (class level) leaves the construct and module state alone: one obligation per definition
+    (a size remembered on the object answers later calls with the first context's value)."""
+    M = ctx.model
+    shared = module_names(M)
+    n = 0
+    for ci in M.construct_classes():
+        if ci.relpath.endswith("debug.py"):
+            continue
+        for nm in names:
+            if nm not in ci.methods:
+                continue
+            fi = FuncInfo(ci.methods[nm], ci.relpath, cls=ci, qual="%s.%s" % (ci.name, nm))
+            sub = type(ctx)("C17", ctx.tier, ctx.root, model=ctx.model)
+            sub._summ = summariser(ctx)
+            check_effects(sub, fi, ci.name, shared, True)
+            bad = [o for o in sub.obligations if not o.ok]
+            n += 1
+            ctx.ob(rule, fi, not bad, "%s keeps no state between calls%s" % (fi.qual, (": " + bad[0].what) if bad else ""), key="stateless")
+    return n
+
+
 def entry_delegation(ctx, rule):
     """parse/parse_file/build/build_file delegate to parse_stream/build_stream with the same object and keyword context."""
     # R4: entry points delegate
